@@ -143,6 +143,15 @@ Proof.
   repeat split; try reflexivity; try assumption; lia.
 Qed.
 
+(* every read that passes has had a leadership check of its own: the call got as far as
+   VerifyLeader and that verification - not an earlier one - succeeded *)
+Theorem wait_lin_ok_own_verify o :
+  wait_lin o = LinOk -> lin_calls_verify o = true /\ lo_verify o = VOk.
+Proof.
+  intros H. destruct (wait_lin_ok o H) as (H1 & H2 & H3 & H4 & _).
+  split; [|exact H4]. unfold lin_calls_verify. rewrite H1, H2, H3, N.eqb_refl. reflexivity.
+Qed.
+
 (* ... and when the wait is over every Command entry up to the commit index read at the
    start that is still in the log has been signalled by the FSM (or was applied before
    the read began: index <= fsmIdx). *)
